@@ -76,7 +76,7 @@ func (g *seqGen) emit(stmt string, blocking, misuse bool) {
 	case blocking:
 		// timeout-safe shape: the blocked goroutine is abandoned when main ends
 		g.body = append(g.body, "go func() {\n\t\t"+strings.ReplaceAll(stmt, "\n", "\n\t\t")+"\n\t}()")
-	case misuse && rapid.Bool().Draw(g.t, "try"):
+	case misuse && rapid.IntRange(0, 2).Draw(g.t, "try") != 0:
 		g.body = append(g.body, "try {\n\t\t"+strings.ReplaceAll(stmt, "\n", "\n\t\t")+"\n\t} catch (e) {\n\t\tfmt.Println(\"E\", e)\n\t}")
 	case !misuse && rapid.IntRange(0, 5).Draw(g.t, "try") == 0:
 		g.body = append(g.body, "try {\n\t\t"+strings.ReplaceAll(stmt, "\n", "\n\t\t")+"\n\t} catch (e) {\n\t\tfmt.Println(\"E\", e)\n\t}")
@@ -115,7 +115,13 @@ func (g *seqGen) step(o *seqObj) {
 	g.exact = o.kind == "mu" || o.kind == "rw" || o.kind == "wg" || o.kind == "ch" || o.kind == "chn"
 	switch o.kind {
 	case "mu":
-		m := pick("Lock", "Unlock", "Unlock", "TryLock", "TryLock")
+		// state-directed choice: while the lock is held the interesting calls
+		// are the ones that fail or release; while it is free, acquiring it
+		// (2 in 3) or misusing it (1 in 3)
+		m := pick("Lock", "Lock", "TryLock", "TryLock", "Unlock", "Unlock")
+		if o.locked {
+			m = pick("TryLock", "TryLock", "TryLock", "Unlock", "Unlock", "Lock")
+		}
 		st := "locked=" + b2s(o.locked) + o.failedTry
 		switch m {
 		case "Lock":
@@ -144,7 +150,13 @@ func (g *seqGen) step(o *seqObj) {
 			}
 		}
 	case "rw":
-		m := pick("Lock", "Unlock", "Unlock", "RLock", "RUnlock", "RUnlock", "RUnlock", "TryLock", "TryLock", "TryRLock", "TryRLock", "TryRLock")
+		m := pick("Lock", "Lock", "RLock", "RLock", "TryLock", "TryRLock", "TryRLock", "Unlock", "RUnlock", "RUnlock")
+		switch {
+		case o.locked:
+			m = pick("TryRLock", "TryRLock", "TryRLock", "TryLock", "RUnlock", "RUnlock", "Unlock", "Unlock", "RLock", "Lock")
+		case o.readers > 0:
+			m = pick("TryLock", "TryLock", "TryRLock", "RLock", "RUnlock", "RUnlock", "RUnlock", "Unlock", "Unlock", "Lock")
+		}
 		st := "w=" + b2s(o.locked) + " r=" + rcount(o.readers) + o.failedTry
 		switch m {
 		case "Lock":
@@ -203,7 +215,10 @@ func (g *seqGen) step(o *seqObj) {
 			}
 		}
 	case "wg":
-		m := pick("Add", "Add", "Done", "Done", "Wait")
+		m := pick("Add", "Add", "Add", "Done", "Wait")
+		if o.counter > 0 {
+			m = pick("Done", "Done", "Done", "Add", "Wait")
+		}
 		st := "counter=" + rcount(o.counter)
 		if o.waited {
 			st += " afterWait"
@@ -238,7 +253,7 @@ func (g *seqGen) step(o *seqObj) {
 		}
 	case "ch", "chn":
 		m := pick("send", "send", "recv", "recv2", "close", "close", "len")
-		st := fmt.Sprintf("open=%s fill=%s cap=%d", b2s(o.open), rcount(o.fill), o.cap)
+		st := fmt.Sprintf("open=%s fill=%s/%d", b2s(o.open), rcount(o.fill), o.cap)
 		if o.kind == "chn" {
 			st = "nil"
 		}
